@@ -1,6 +1,7 @@
 import GeoVerif.Lemmas.C04
 import GeoVerif.Lemmas.Irr
 import GeoVerif.Lemmas.CodeCashFlow
+import GeoVerif.Lemmas.CodeCarbon
 /-!
 # C04 — Cash flow, NPV, IRR, VIR, MOIC and payback are mutually consistent
 
@@ -145,6 +146,36 @@ theorem code_payback_is_model (cum : List Rat) : Code.PaybackFragment cum = payb
 example : Code.PaybackFragment (Code.CalculateTotalRevenue 4 1 10 0 [0, 4, 4, 4, 4]).2 = 3 + 1/2 := by decide +kernel
 /-- a cumulative of exactly zero at a year end counts as "not yet positive": the crossing is found in the next year -/
 example : Code.PaybackFragment [-40, -30, -20, -10, 0, 10, 20] = 5 := by decide +kernel
+
+/-- `CalculateCarbonRevenue` as it stands in the source (a loop over four variables, the end-use test against the two enum members `E ≠ …`):
+carbon cash flow, its running sum, the annual avoided pounds and their accumulated total — for every lifetime, construction period ≥ 1,
+end-use code and all series -/
+theorem code_CalculateCarbonRevenue_is_model (L cy : Nat) (hcy : 1 ≤ cy) (eu E H : Int) (net heat price : List Rat) (grid ngi : Rat) :
+    Code.CalculateCarbonRevenue (L : Int) (cy : Int) price grid ngi net heat eu E H =
+      (carbonSeries L cy eu E H net heat price grid ngi, cumsum (carbonSeries L cy eu E H net heat price grid ngi),
+       carbonAnnual L cy eu E H net heat grid ngi,
+       (List.range L).foldl (fun (T : Rat) (k : Nat) => T + carbonLbs eu E H net heat grid ngi k) 0) :=
+  code_carbon_eq L cy hcy eu E H net heat price grid ngi
+
+/-- … and operating year `k` of that cash flow is the model's `carbonRevenue` (avoided CO2 × that year's carbon price) for the products the end-use sells -/
+theorem code_carbon_year (s : CashIn) (hcy : 1 ≤ s.cy) (eu E H : Int)
+    (hs : s.sells = (if eu = E then Sells.elec else if eu = H then Sells.heat else Sells.both)) (k : Nat) (hk : k < s.L) :
+    (Code.CalculateCarbonRevenue (s.L : Int) (s.cy : Int) s.pcarbon s.grid s.ngi s.net s.heat eu E H).1.getD (s.cy + k) 0 =
+      carbonRevenue s k := by
+  rw [code_carbon_eq s.L s.cy hcy]
+  simp only [carbonSeries, append_map_getD]
+  have h : s.cy ≤ s.cy + k ∧ s.cy + k < s.cy + s.L := by omega
+  rw [if_pos h, Nat.add_sub_cancel_left]
+  unfold carbonRevenue carbonLbs
+  by_cases e1 : eu = E
+  · simp [hs, e1]
+  · by_cases e2 : eu = H
+    · have e3 : ¬ H = E := fun h => e1 (e2.trans h)
+      simp [hs, e2, e3]
+    · simp [hs, e1, e2]
+
+example : Code.CalculateCarbonRevenue 2 1 [1/10, 1/5] 2 3 [1000000, 1000000] [500000, 500000] 7 1 2 =
+    ([0, 7/20, 7/10], [0, 7/20, 21/20], [0, 3500000, 3500000], 7000000) := by decide +kernel
 
 example : Code.CalculateTotalRevenue 3 2 10 1 [0, 0, 4, 4, 4] = ([-5, -5, 3, 3, 3], [-5, -10, -7, -4, -1]) := by decide +kernel
 example : Code.CalculateRevenue 2 1 [1000000, 2000000] [1/2, 1/4] = ([0, 1/2, 1/2], [0, 1/2, 1]) := by decide +kernel
